@@ -946,7 +946,7 @@ func runC14(c *Ctx) {
 		{"int-literal:negative", "f(-1);"}, {"int-literal:negative", "check if $x > -5;"},
 		{"int-literal:leading-zero", "f(010);"}, {"int-literal:leading-zero", "f(09);"},
 		{"ident:keyword-prefix", "lengthy(1);"}, {"ident:keyword-prefix", "truex(1);"}, {"ident:keyword-prefix", "contains_x(1);"}, {"ident:keyword-prefix", "prefixed(1);"},
-		{"string-literal:backslash", `f("^abc\s+def$");`}, {"string-literal:backslash", `f("a\nb");`},
+		{"string-literal:unknown-escape", `f("^abc\s+def$");`}, {"string-literal:unknown-escape", `f("\q \w\d+ \x4");`}, {"string-literal:backslash", `f("a\nb");`},
 	}
 	for _, e := range devs {
 		sx := parseCaseSx("block", e.text, nil)
@@ -967,6 +967,8 @@ func runC14(c *Ctx) {
 			want = parsedExpect{Facts: []Pred{{Name: strings.TrimSuffix(e.text, "(1);"), Terms: []Term{I(1)}}}}.Sx()
 		case `f("^abc\s+def$");`:
 			want = parsedExpect{Facts: []Pred{{Name: "f", Terms: []Term{S(`^abc\s+def$`)}}}}.Sx()
+		case `f("\q \w\d+ \x4");`:
+			want = parsedExpect{Facts: []Pred{{Name: "f", Terms: []Term{S(`\q \w\d+ \x4`)}}}}.Sx()
 		case `f("a\nb");`:
 			want = parsedExpect{Facts: []Pred{{Name: "f", Terms: []Term{S(`a\nb`)}}}}.Sx()
 		}
